@@ -1130,3 +1130,50 @@ func (e *Engine) reachableFromErrEdgeOf(fn *ssa.Function, c *ssa.Call, target ss
 	}
 	return false
 }
+
+// ---------------------------------------------------------------------------
+// borrowing obligations between properties
+
+var borrowCache = map[*Engine]map[string]*Report{}
+
+// borrow evaluates property `from` (once per engine) and copies its
+// obligations whose rule name is listed into r: several properties rest on
+// the same mechanism (the vote grant guard matters for election safety and
+// for replica agreement), and each property's check must report a break of
+// it on its own.
+func borrow(e *Engine, r *Report, from string, rules ...string) {
+	if from == r.Prop {
+		return
+	}
+	m := borrowCache[e]
+	if m == nil {
+		m = map[string]*Report{}
+		borrowCache[e] = m
+	}
+	src, ok := m[from]
+	if !ok {
+		src = &Report{Prop: from, e: e, cfg: r.cfg}
+		m[from] = src // set first: guards against mutual borrowing
+		if p := registry[from]; p != nil {
+			func() {
+				defer func() {
+					if x := recover(); x != nil {
+						src.undecided("PANIC", "borrowed rules of "+from, fmt.Sprint(x))
+					}
+				}()
+				p.Run(e, src)
+			}()
+		}
+	}
+	want := map[string]bool{}
+	for _, x := range rules {
+		want[x] = true
+	}
+	for _, o := range src.Obs {
+		if want[o.Rule] {
+			o2 := o
+			o2.Config = ""
+			r.add(o2)
+		}
+	}
+}
